@@ -70,6 +70,18 @@ pub fn literals(tier: Tier) -> Vec<Lit> {
   // complex
   for a in ["1", "0", "2.5", "10"] { for b in ["1", "0", "3", "0.5"] { for sg in ["+", "-"] { for u in ["i", "j"] { push(format!("{}{}{}{}", a, sg, b, u), "complex", None, &mut v); } } } }
   for b in ["1", "3", "0.5", "0"] { for u in ["i", "j"] { push(format!("{}{}", b, u), "imaginary", None, &mut v); } }
+  // a leading minus on every complex form
+  for a in ["1", "2.5"] { for b in ["2", "0.5"] { for sg in ["+", "-"] { push(format!("-{}{}{}i", a, sg, b), "complex-negative-real", None, &mut v); } } }
+  // based literals under a narrow kind annotation, in range and just out of range
+  for k in ["u8", "i8", "u16", "i16"] { for t in ["0xff", "0x100", "0x7f", "0x80", "0b11111111", "0b100000000", "0o377", "0o400", "0xffff", "0x10000", "0x7fff", "0x8000", "0d255", "0d256"] { push(t.to_string(), "annotated-based", Some(k), &mut v); } }
+  // the annotation written after the literal (a typed literal inside an expression): boundaries of the narrow kinds, negative ones included
+  for k in ["u8", "i8", "u16", "i16", "u32", "i32"] {
+    let (mn, mx) = (kind_min(k), kind_max(k));
+    let mut cands = vec![mx, mx.add(&Wide::from_i128(1)).unwrap_or(mx), Wide::from_i128(0), Wide::from_i128(1)];
+    if !is_unsigned(k) { cands.push(mn); cands.push(mn.sub(&Wide::from_i128(1)).unwrap_or(mn)); cands.push(Wide::from_i128(-1)); }
+    for c in cands { push(format!("{}<{}>", c.text(), k), "postfix-annotated", None, &mut v); }
+    for t in ["0xff", "0x100", "0x7f", "0x80"] { push(format!("{}<{}>", t, k), "postfix-annotated-based", None, &mut v); }
+  }
   // leading minus
   for t in ["5", "0", "0.5", ".5", "1.5e2", "0xff", "1/3", "255u8", "9007199254740993"] { push(format!("-{}", t), "negated", None, &mut v); }
   v
@@ -100,10 +112,26 @@ fn typed_int_expect(kind: &str, digits: &str, through_f64: bool, neg: bool) -> W
 }
 
 pub fn expectation(l: &Lit, production: &str) -> Want {
+  // `256<u8>`: the same rule as the annotation on the variable
+  if l.annot.is_none() && l.text.ends_with('>') {
+    if let Some(p) = l.text.find('<') {
+      let k = &l.text[p + 1..l.text.len() - 1];
+      if let Some(ks) = ALL_KINDS.iter().find(|x| **x == k) { return expectation(&Lit { text: l.text[..p].to_string(), family: l.family, annot: Some(*ks) }, production); }
+    }
+  }
   let t = l.text.as_str();
   let (neg, body) = if let Some(r) = t.strip_prefix('-') { (true, r) } else { (false, t) };
   let sign = |c: Canon| -> Canon { if !neg { return c; } match c { Canon::Num(k, x) => { if k == "r64" { let f = Frac::parse(&x).unwrap(); Canon::Num(k, Frac { n: -f.n, d: f.d }.text()) } else if is_float(&k) { Canon::Num(k.clone(), if k == "f32" { f32_text(-x.parse::<f32>().unwrap()) } else { f64_text(-x.parse::<f64>().unwrap()) }) } else { let w = Wide::parse(&x).unwrap().negate(); Canon::Num(k, w.text()) } } o => o } };
   if let Some(k) = l.annot {
+    if ["Hexadecimal", "Octal", "Binary", "Decimal"].contains(&production) {
+      // a based literal under an integer kind: exact when it fits, else the documented clamp or an error, never another value
+      if !is_int(k) { return Want::Unjudged("annotated-based-to-float"); }
+      let radix = match production { "Hexadecimal" => 16, "Octal" => 8, "Binary" => 2, _ => 10 };
+      return match u128::from_str_radix(&strip_us(&body[2..]), radix) {
+        Ok(v) => { let w = Wide { neg: neg && v != 0, mag: v }; if w.fits(k) { Want::Exact(Canon::Num(k.into(), w.text())) } else { Want::ExactOrError(Canon::Num(k.into(), if w.neg { kind_min(k).text() } else { kind_max(k).text() })) } }
+        Err(_) => Want::MustError,
+      };
+    }
     if production != "Integer" && production != "Float" && production != "Scientific" { return Want::Unjudged("annotated-non-decimal"); }
     if production == "Integer" { return typed_int_expect(k, body, true, neg); }
     // annotated float spelling: nearest in the target float kind
